@@ -3,7 +3,7 @@
    point of any sheet. *)
 From Coq Require Import List NArith Bool.
 From RPFT Require Import Base.Sexp Base.PyStr Base.Result Gen.Tables Cell.Cell Cell.CellSession
-  Row.Ty Row.Layout Row.RowParse Row.RowSession Row.Encodes Row.EncodesFacts.
+  Row.Ty Row.Layout Row.RowParse Row.RowSession Row.Encodes Row.EncodesFacts Row.EncodesExamples.
 Import ListNotations.
 
 Lemma rp_run_model st rows : rp_rm (fst (rp_run st rows)) = rp_rm st /\ rp_cell (fst (rp_run st rows)) = rp_cell st.
@@ -61,3 +61,12 @@ Theorem layout_independent_in_history rm pre1 post1 pre2 post2 v c1 c2 :
   nth_error (snd (rp_run (rp_init rm) (pre1 ++ c1 :: post1))) (length pre1)
   = nth_error (snd (rp_run (rp_init rm) (pre2 ++ c2 :: post2))) (length pre2).
 Proof. intros H1 H2. rewrite !(encodes_parse_in_history rm _ _ v) by assumption. reflexivity. Qed.
+
+(* non-vacuity: three different layouts of one nested value as the rows of one sheet *)
+Example sheet_nonvacuous :
+  snd (rp_run (rp_init rmR) [cells_packed; cells_spread; cells_star]) = [Ok vR; Ok vR; Ok vR].
+Proof.
+  destruct encodes_parse_nonvacuous as (H1 & H2 & H3 & _).
+  rewrite rp_run_results. cbn [map rp_init rp_rm].
+  rewrite (encodes_parse _ _ _ H1), (encodes_parse _ _ _ H2), (encodes_parse _ _ _ H3). reflexivity.
+Qed.
